@@ -55,7 +55,10 @@ def make_world(rlen):
                 if rlen < 0 and st.renders[0] % 2 == 0:
                     # a resource that is sometimes gone: every second rendering is a short unsuccessful response
                     return Message(code=NOT_FOUND, payload=b"gone")
-                L = abs(rlen)
+                if rlen >= 1000 and st.renders[0] % 2 == 0:
+                    # a resource whose representation is sometimes empty: every second rendering is a successful response without payload
+                    return Message(payload=b"")
+                L = abs(rlen) % 1000
                 return Message(payload=bytes([st.renders[0] & 0xFF]) + bytes((i * 3 + st.renders[0]) & 0xFF for i in range(1, L)) if L else b"")
         site = resource.Site()
         site.add_resource(["a"], R("a"))
@@ -216,8 +219,10 @@ def apply(st, op):
                 viol("render-count", 1, rendered, "blockwise.py:Block2Cache.extract_or_insert", "render")
                 return
             n = st.renders[0]
-            L = abs(st.rlen)
+            L = abs(st.rlen) % 1000
             R = (bytes([n & 0xFF]) + bytes((i * 3 + n) & 0xFF for i in range(1, L))) if L else b""
+            if st.rlen >= 1000 and n % 2 == 0:
+                R = b""
             okcode = "2.05"
             if st.rlen < 0 and n % 2 == 0:
                 R, okcode = b"gone", "4.04"
@@ -468,7 +473,7 @@ def run(tier, seed, jobs):
     if tier == "thorough":
         starts = [op for op in ops_b1() if op[0] == "b1" and op[2] == 0 and op[3] == 1][:6]
         work += [("b1", (a, b), 20, 4) for a in starts[:4] for b in ops_b1()]      # (behind a prefix of two: total depth 5)
-    for rlen in (0, 17, 20, 64, 200, -64, -20) if tier == "thorough" else (17, 64, -64):
+    for rlen in (0, 17, 20, 64, 200, -64, -20, 1064) if tier == "thorough" else (17, 64, -64, 1064):
         work += [("b2", op, rlen, d2) for op in ops_b2()]
     # long transfers: every gap short, total duration beyond the lifetime (state must be refreshed by each use)
     long1 = (("b1", 1, 0, 1, 0, 16, "a", None, "PUT"), ("t", MTW - 0.1), ("b1", 1, 1, 1, 0, 16, "a", None, "PUT"))
